@@ -89,3 +89,113 @@ fn archetype_iter_visits_each_once_len3() {
     }
     assert!(count2 == count);
 }
+
+// ---- C01/C09/C03 (bounded: two archetypes, 2+1 entities, one destroy through a SYMBOLIC key kind):
+// world-level dispatch (generated WorldCanResolve / ArchetypeCanResolve impls, Select* conversions) accepts every key kind of
+// a live entity, rejects every key kind of the destroyed one, and never touches the other entities
+#[kani::proof]
+#[kani::unwind(4)]
+fn world_dispatch_four_key_kinds() {
+    let mut world = EcsWorld::with_capacity(EcsWorldCapacity { arch_foo: 2, arch_bar: 1 });
+    let a = world.create::<ArchFoo>((CompA(1), CompB(10)));
+    let a2 = world.create::<ArchFoo>((CompA(2), CompB(20)));
+    let b = world.create::<ArchBar>((CompA(3), CompZ));
+    let a_any: EntityAny = a.into();
+    let b_any: EntityAny = b.into();
+    let a_dir = world.to_direct(a).unwrap();
+    let a_dir_any = world.to_direct(a_any).unwrap();
+    assert!(EntityDirectAny::from(a_dir) == a_dir_any);
+    assert!(world.contains(a) && world.contains(a_any) && world.contains(a_dir) && world.contains(a_dir_any));
+    assert!(world.contains(b) && world.contains(b_any) && world.contains(a2));
+    assert!(a_any.archetype_id() == 3 && b_any.archetype_id() == ArchBar::ARCHETYPE_ID && b_any.archetype_id() != 3);
+    // a handle of one archetype is not a handle of the other
+    assert!(Entity::<ArchBar>::try_from(a_any).is_err() && Entity::<ArchFoo>::try_from(b_any).is_err());
+    let kind: u8 = kani::any();
+    kani::assume(kind < 4);
+    let gone = match kind {
+        0 => world.destroy(a).is_some(),
+        1 => world.destroy(a_any).is_some(),
+        2 => world.destroy(a_dir).is_some(),
+        _ => world.destroy(a_dir_any).is_some(),
+    };
+    assert!(gone);
+    // every key kind of the destroyed entity is rejected by every path
+    assert!(!world.contains(a) && !world.contains(a_any) && !world.contains(a_dir) && !world.contains(a_dir_any));
+    assert!(world.to_direct(a).is_none() && world.to_direct(a_any).is_none());
+    assert!(world.destroy(a).is_none() && world.destroy(a_any).is_none() && world.destroy(a_dir).is_none() && world.destroy(a_dir_any).is_none());
+    assert!(world.archetype::<ArchFoo>().len() == 1 && world.archetype::<ArchBar>().len() == 1);
+    // the others are untouched and keep their own values
+    assert!(world.contains(a2) && world.contains(b) && world.contains(b_any));
+    let va = ecs_find!(world, a2, |x: &CompA, y: &CompB| (x.0, y.0));
+    assert!(va == Some((2, 20)));
+    let vb = ecs_find!(world, b_any, |x: &CompA| x.0);
+    assert!(vb == Some(3));
+    // a find on a live entity of an unmatched archetype returns None without running the closure
+    let none = ecs_find!(world, b_any, |_y: &CompB| 1u8);
+    assert!(none.is_none());
+    let stale = ecs_find!(world, a_any, |x: &CompA| x.0);
+    assert!(stale.is_none());
+}
+
+// ---- C14/C15 (loop-free, all 256 archetype ids): the generated Select* conversions report exactly the declared ids
+#[kani::proof]
+fn select_conversions_all_ids() {
+    let id: u8 = kani::any();
+    let r = SelectArchetype::try_from(id);
+    assert!(r.is_ok() == (id == 3 || id == ArchBar::ARCHETYPE_ID));
+    if let Ok(s) = r { assert!(s.archetype_id() == id); }
+    assert!(ArchFoo::ARCHETYPE_ID == 3 && ArchBar::ARCHETYPE_ID == 4);
+    let k: u32 = kani::any();
+    let v: u32 = kani::any();
+    kani::assume(v != 0);
+    let any = EntityAny::from_raw((k, v)).unwrap();
+    match SelectEntity::try_from(any) {
+        Ok(SelectEntity::ArchFoo(e)) => { assert!(k as u8 == 3); assert!(e.into_any() == any); }
+        Ok(SelectEntity::ArchBar(e)) => { assert!(k as u8 == 4); assert!(e.into_any() == any); }
+        Err(_) => assert!(k as u8 != 3 && k as u8 != 4),
+    }
+}
+
+// ---- C07 (bounded: 3 entities in one archetype + 1 in another, SYMBOLIC decisions): ecs_iter_destroy! through the real
+// expansion visits each entity alive at the start exactly once, destroys exactly the flagged ones, stops at Break
+#[kani::proof]
+#[kani::unwind(5)]
+fn world_iter_destroy_symbolic_decisions() {
+    let mut world = EcsWorld::with_capacity(EcsWorldCapacity { arch_foo: 3, arch_bar: 1 });
+    let e = [
+        world.create::<ArchFoo>((CompA(0), CompB(100))),
+        world.create::<ArchFoo>((CompA(1), CompB(101))),
+        world.create::<ArchFoo>((CompA(2), CompB(102))),
+    ];
+    let z = world.create::<ArchBar>((CompA(3), CompZ));
+    let d: [u8; 4] = kani::any();
+    kani::assume(d[0] < 4 && d[1] < 4 && d[2] < 4 && d[3] < 4);
+    let mut visits = [0u8; 4];
+    let mut stopped = false;
+    let mut order_ok = true;
+    ecs_iter_destroy!(world, |entity: &EntityAny, direct: &EntityDirectAny, a: &CompA| {
+        let i = a.0 as usize;
+        visits[i] += 1;
+        if stopped { order_ok = false; }
+        let _ = (entity, direct);
+        match d[i] {
+            0 => EcsStepDestroy::Continue,
+            1 => EcsStepDestroy::ContinueDestroy,
+            2 => { stopped = true; EcsStepDestroy::Break }
+            _ => { stopped = true; EcsStepDestroy::BreakDestroy }
+        }
+    });
+    assert!(order_ok);                       // nothing runs after a Break/BreakDestroy
+    for i in 0..4 { assert!(visits[i] <= 1); }
+    if !stopped { for i in 0..4 { assert!(visits[i] == 1); } }
+    for i in 0..3 {
+        let flagged = visits[i] == 1 && (d[i] == 1 || d[i] == 3);
+        assert!(world.contains(e[i]) == !flagged);
+        if !flagged {
+            let v = ecs_find!(world, e[i], |a: &CompA, b: &CompB| (a.0, b.0));
+            assert!(v == Some((i as u32, 100 + i as u64)));
+        }
+    }
+    let zf = visits[3] == 1 && (d[3] == 1 || d[3] == 3);
+    assert!(world.contains(z) == !zf);
+}
